@@ -11,6 +11,7 @@ import (
 	"os"
 	"path/filepath"
 	"sort"
+	"strings"
 	"sync"
 	"time"
 
@@ -94,6 +95,9 @@ func drawNet(rt *rapid.T, p *Plan, prop, tier string) *Plan {
 	if prop == "C07" || prop == "C17" {
 		np.Sync = rapid.IntRange(0, 3).Draw(rt, "sync7") != 0
 		np.Observers = 1
+	}
+	if prop == "C17" && rapid.Bool().Draw(rt, "faulty17") {
+		np.Sync = false // view changes and recovery messages only exist in faulty runs
 	}
 	np.DupPM = rapid.IntRange(0, 3).Draw(rt, "dup") * 50
 	np.Relay = rapid.Bool().Draw(rt, "relay")
@@ -393,6 +397,9 @@ func (s *netSim) flushOutbox() {
 			}
 			to := to
 			kind := m.kind
+			if !bytes.Equal(raw, m.raw) {
+				kind += "*" // altered on the wire
+			}
 			s.at(max(s.now(), m.sentAt+delay), func() { s.deliver(to, kind, raw) })
 			s.r.out.Probes["msg_scheduled"]++
 			if s.np.DupPM > 0 && tape.Chance(s.np.DupPM, 1000) {
@@ -459,6 +466,7 @@ func (s *netSim) deliver(to int, kind string, raw []byte) {
 		e := msg.Payload.(*payload.Extensible)
 		if s.r.prop == "C17" {
 			s.checkReencode(msg, raw)
+			s.checkConsensusPayload(e, strings.HasSuffix(kind, "*"))
 		}
 		ok, err := v.ext.Add(e)
 		if err != nil || !ok {
